@@ -230,3 +230,65 @@ class FromDataFrame(FunctionContract):
 
 
 CONTRACTS.append(FromDataFrame())
+
+
+class DataFrameToSymbols(FunctionContract):
+    """dataframe_to_symbols(table): one Symbol per row, in row order, no row skipped; `type` becomes the enumeration member, lags / leads
+    become int or None (missing), name / equation / code stay the strings they are or None (missing, however pandas spells it: None or NaN)."""
+    qualname = 'fsic.tools.dataframe_to_symbols'
+    props = ('C19',)
+
+    ROWS = {
+        'variable-and-function': [dict(name='Y', type=3, lags=-1.0, leads=0.0, equation='Y[t] = X[t-1]', code='self._Y[t] = self._X[t-1]'),
+                                  dict(name='exp', type=6, lags=float('nan'), leads=float('nan'), equation=None, code=None)],
+        'verbatim-without-name': [dict(name=None, type=8, lags=float('nan'), leads=float('nan'), equation='`self.Q = 1`', code='self.Q = 1'),
+                                  dict(name=float('nan'), type=8, lags=float('nan'), leads=float('nan'), equation='x', code='x'),
+                                  dict(name='X', type=2, lags=-2, leads=1, equation=float('nan'), code=float('nan'))],
+        'empty': [],
+    }
+
+    def scenarios(self):
+        return list(self.ROWS)
+
+    def setup(self, interp, scenario):
+        rows = self.ROWS[scenario]
+        e = {'rows': rows}
+
+        class Table:
+            def iterrows(self_):
+                return [(i, dict(r)) for i, r in enumerate(rows)]
+
+            def __getattr__(self_, name):
+                raise AssertionError(f'table.{name} used')
+        e['inputs'] = {}
+        return Call([Table()], {}, entry=e)
+
+    def post(self, interp, scenario, call, out):
+        import math
+        from fsic.parser import Symbol, Type
+        ctx = interp.ctx
+        e = call.entry
+        if out.kind == 'raise':
+            ctx.prove(False, f'does_not_raise:{getattr(exc_class(out.exc), "__name__", "?")}', 'raises')
+            return
+        r = out.value
+
+        def missing(x):
+            return x is None or (isinstance(x, float) and math.isnan(x))
+        want = [Symbol(name=None if missing(w['name']) else w['name'], type=Type(w['type']), lags=None if missing(w['lags']) else int(w['lags']),
+                       leads=None if missing(w['leads']) else int(w['leads']), equation=None if missing(w['equation']) else w['equation'],
+                       code=None if missing(w['code']) else w['code']) for w in e['rows']]
+        def as_tuple(s_):
+            f = getattr(s_, 'fields', None)
+            if f is not None:
+                return tuple(f.get(k) for k in Symbol._fields)
+            return tuple(s_) if isinstance(s_, tuple) else s_
+        got = [as_tuple(x) for x in r] if isinstance(r, list) else None
+        ctx.prove(z3.BoolVal(got is not None and len(got) == len(want)), 'one_symbol_per_row_none_skipped', 'ensures', note=str(got)[:160])
+        if got is not None and len(got) == len(want):
+            for i, (g, w) in enumerate(zip(got, want)):
+                same = all((a is None and b is None) or (a == b and type(a) is type(b)) for a, b in zip(g, tuple(w)))
+                ctx.prove(z3.BoolVal(same), f'row_{i}_is_converted_field_by_field_(missing_values_become_None)', 'ensures', note=f'{g} vs {tuple(w)}'[:200])
+
+
+CONTRACTS.append(DataFrameToSymbols())
